@@ -4,8 +4,8 @@ from checks.engine_common import run_engine
 META = {
     "property_id": "C13",
     "technique": "Coq proof over a Gallina model of the build engine + history correspondence with fresh-process builds",
-    "level_text": "placeholder",
-    "level_note": "placeholder",
+    "level_text": 'Theorems: dry_run_no_effects, dry_build_no_effects, load_refresh_invisible/idempotent, dry_run_transparent. Correspondence + oracle: tree hash (files + persisted state) unchanged by a dry Run, evaluating sets of dry and following real build equal.',
+    "level_note": 'Trusted: as C01. dry_run_predicts is not yet a theorem (oracle + correspondence decide it).',
     "design_ref": "DESIGN.md §6 C13",
 }
 
